@@ -37,9 +37,10 @@ META = {
         "values, errors when free, fixedness, spin factors with indices, lineshapes with all arguments, n)) and the two "
         "models must be equal; coefficient names *_r / *_i distinct; every non-API identifier used in the code part is "
         "declared earlier in the same output; the Python output compiles; ret_output=True string == captured stdout of "
-        "ret_output=False apart from the timestamp line; `python -m decaylanguage -G goofit|goofitpy file` prints the same "
-        "output (compared modulo timestamp and, because it is another process with another hash seed, modulo the order of "
-        "mutually independent declarations)."),
+        "ret_output=False apart from the timestamp line; `python -m decaylanguage -G goofit|goofitpy file` prints the text the "
+        "function returns: for the generated files both are produced in fresh interpreters with PYTHONHASHSEED=0 and compared "
+        "exactly apart from the timestamp; for the shipped model (40 s per uncached conversion) the CLI text is compared with the "
+        "in-process result modulo timestamp and the order of mutually independent declarations (other process, other hash seed)."),
     "assumptions": [
         "particle_from_string_name memoised per (name, particle-table size) in the in-process conversions (not in the CLI subprocesses)",
         "GooFit API / host identifiers are not model symbols: std vector Lineshape SpinFactor Amplitude Variable constexpr fptype new "
@@ -339,24 +340,49 @@ def cli_output(path, gen, env_extra=None):
     return p.returncode, p.stdout, p.stderr
 
 
-def check_cli(path, outs=None):
-    """CLI output of both generators == function output (canonical form)."""
+def function_output_fresh(path, gen, env_extra=None):
+    """ampgen2goofit(py)(path, ret_output=True) evaluated in a fresh interpreter and written to its stdout unchanged"""
+    env = dict(os.environ)
+    env.pop("PYTHONHASHSEED", None)
+    env.update(env_extra or {})
+    code = ("import sys; from decaylanguage.modeling.ampgen2goofit import ampgen2goofit, ampgen2goofitpy; "
+            "sys.stdout.write((ampgen2goofit if sys.argv[2] == 'goofit' else ampgen2goofitpy)(sys.argv[1], ret_output=True))")
+    p = subprocess.run([sys.executable, "-c", code, path, gen], capture_output=True, text=True, env=env, timeout=1500)
+    return p.returncode, p.stdout, p.stderr
+
+
+def check_cli(path, outs=None, exact=True):
+    """Command line output of both generators == text returned by the function.
+
+    exact: both sides are produced in fresh interpreters with PYTHONHASHSEED=0 and must be equal apart from the
+    timestamp line; otherwise the CLI text is compared with ``outs`` (made in this process, other hash seed)
+    modulo the order of mutually independent declarations."""
     fails = []
-    if outs is None:
-        from decaylanguage.modeling.ampgen2goofit import ampgen2goofit, ampgen2goofitpy
-        outs = {"cpp": ampgen2goofit(path, ret_output=True), "py": ampgen2goofitpy(path, ret_output=True)}
-    with ThreadPoolExecutor(2) as tp:
-        futs = {lang: tp.submit(cli_output, path, gen) for lang, gen in (("cpp", "goofit"), ("py", "goofitpy"))}
-        for lang, fut in futs.items():
-            rc, so, se = fut.result()
+    gens = (("cpp", "goofit"), ("py", "goofitpy"))
+    seed = {"PYTHONHASHSEED": "0"}
+    with ThreadPoolExecutor(4) as tp:
+        futs = {lang: tp.submit(cli_output, path, gen, seed if exact else None) for lang, gen in gens}
+        ffuts = {lang: tp.submit(function_output_fresh, path, gen, seed) for lang, gen in gens} if exact else {}
+        for lang, gen in gens:
+            rc, so, se = futs[lang].result()
             if rc != 0:
-                fails.append(("cli.runs", f"-G {'goofit' if lang == 'cpp' else 'goofitpy'}: exit {rc}: {se[-300:]}"))
+                fails.append(("cli.runs", f"-G {gen}: exit {rc}: {se[-300:]}"))
                 continue
-            # print() adds nothing: the CLI text is the returned text
-            a, b = X.canonical_output(so, lang), X.canonical_output(outs[lang], lang)
-            if a != b:
-                k = next((key for key in a if a[key] != b[key]), None)
-                fails.append(("cli.same_text", f"-G {'goofit' if lang == 'cpp' else 'goofitpy'}: part {k} differs: CLI {str(a[k])[:200]} / function {str(b[k])[:200]}"))
+            if exact:
+                rc2, fo, fe = ffuts[lang].result()
+                if rc2 != 0:
+                    fails.append(("converts", f"{lang}: fresh interpreter: {fe[-300:]}"))
+                    continue
+                a, b = X.strip_timestamp(so).split("\n"), X.strip_timestamp(fo).split("\n")
+                if a != b:
+                    k = next((i for i, (x, y) in enumerate(zip(a, b)) if x != y), min(len(a), len(b)))
+                    fails.append(("cli.same_text", f"-G {gen}: CLI prints {len(a)} lines, function returns {len(b)}; first difference at line {k}: "
+                                  f"{a[k] if k < len(a) else '<end>'!r} / {b[k] if k < len(b) else '<end>'!r}"))
+            else:
+                a, b = X.canonical_output(so, lang), X.canonical_output(outs[lang], lang)
+                if a != b:
+                    k = next((key for key in a if a[key] != b[key]), None)
+                    fails.append(("cli.same_text", f"-G {gen}: part {k} differs: CLI {str(a[k])[:200]} / function {str(b[k])[:200]}"))
     return fails
 
 
@@ -401,12 +427,12 @@ def replay(input):                                              # noqa: A002
     return True, "both outputs describe the same self-contained model"
 
 
-def _function_of(clause):
+def _function_of(clause, what=""):
     if clause.startswith("cli."):
         return Q_MAIN
-    if clause.startswith(("python.", "coefficients.")) or clause.startswith("ret_output"):
-        return Q_PY
-    return Q_CPP + " / " + Q_PY
+    if what.startswith("cpp:"):
+        return Q_CPP
+    return Q_PY        # clauses on the Python output, and the same.* clauses (a difference between the two outputs)
 
 
 def run(tier="quick", seed=0):
@@ -473,10 +499,10 @@ def run(tier="quick", seed=0):
                         fh.write(t)
                     return any(c == clause for c, _ in check_file(p)[0])
             small = G.shrink_lines(f["text"], still, max_tries=60)
-        out_fail.append(dict(function=_function_of(clause), clause=clause, what=f["what"], input=dict(text=small, clause=clause),
+        out_fail.append(dict(function=_function_of(clause, f["what"]), clause=clause, what=f["what"], input=dict(text=small, clause=clause),
                              replay={"module": "checks.C19", "function": "replay"}))
     for c, w in sh_fails:
-        out_fail.append(dict(function=_function_of(c), clause=c, what=w, input=dict(file=SHIPPED, clause=c),
+        out_fail.append(dict(function=_function_of(c, w), clause=c, what=w, input=dict(file=SHIPPED, clause=c),
                              replay={"module": "checks.C19", "function": "replay"}))
     n_files = len(res) + 1
     entry = dict(
